@@ -128,6 +128,7 @@ type Effect struct {
 }
 
 type Effects struct {
+	fcBusy  map[Root]bool
 	p       *Program
 	memo    map[ssa.Value]RootSet
 	state   map[ssa.Value]int // 1 in progress, 2 done
@@ -426,6 +427,16 @@ func (e *Effects) derefSet(locs RootSet, fn *ssa.Function) RootSet {
 // the allocating function.  Flow-insensitive.
 func (e *Effects) freshContents(loc Root, user *ssa.Function) RootSet {
 	out := RootSet{}
+	// a location whose contents are defined in terms of themselves (pending = append(pending, …) in a work-list loop):
+	// the inner occurrence contributes nothing new
+	if e.fcBusy == nil {
+		e.fcBusy = map[Root]bool{}
+	}
+	if e.fcBusy[loc] {
+		return out
+	}
+	e.fcBusy[loc] = true
+	defer delete(e.fcBusy, loc)
 	var fn *ssa.Function
 	if in, ok := loc.Site.(ssa.Instruction); ok {
 		fn = in.Parent()
